@@ -80,7 +80,11 @@ class TypeLengthString(object):
     TYPE_6BIT_ASCII = 2
     TYPE_ASCII_OR_UTF16 = 3
 
+    # IPMI v2.0 section 43.15: in an SDR all 16 BCD-plus codes are characters
+    SDR_BCD_PLUS = '0123456789 -.:,_'
+
     def __init__(self, data=None, offset=0, force_lang_eng=False, sdr=False):
+        self._sdr = sdr
         if data:
             self._from_data(data, offset, force_lang_eng)
 
@@ -97,7 +101,11 @@ class TypeLengthString(object):
 
         self.raw = data[offset+1:offset+1+self.length]
 
-        if self.field_type == self.TYPE_BCD_PLUS:
+        if self.field_type == self.TYPE_BCD_PLUS and self._sdr:
+            self.string = ''.join(
+                self.SDR_BCD_PLUS[b >> 4] + self.SDR_BCD_PLUS[b & 0xf]
+                for b in self.raw)
+        elif self.field_type == self.TYPE_BCD_PLUS:
             self.string = bytes(bytearray(self.raw)).decode('bcd+')
         elif self.field_type == self.TYPE_6BIT_ASCII:
             self.string = _unpack6bitascii(self.raw)
